@@ -19,7 +19,7 @@ import (
 
 func init() { Registry["C04"] = runC04 }
 
-const explanationC04 = "Decides structural necessary conditions of C04: (R04.1) in every expanded variant of the generated handler the endpoint call is reached only through decodeRequest followed by `if err != nil { encodeError…; return }`, and the runtime gRPC handlers have the same gate (shared with C10/R10.3); (R04.2) the generated request decoder returns the accumulated validation error before building the payload; (R04.3) keyword semantics — each of the six numeric/length keyword templates, expanded under the flags its execute site fixes, emits the comparison, bound and lower/upper flag that the keyword names (inclusive `<`/`>`, exclusive `<=`/`>=`, rune count for strings, len otherwise); (R04.4) at every template execute site of validationCode the flags the template branches on have one definite value on all paths (reaching-constants over the data map), and every key printed by the selected branches is definitely present; (R04.5) every ValidationExpr field is consumed by the validation generator, Dup, Merge and HasRequiredOnly; (R04.6) Merge treats lower-bound-like and upper-bound-like keywords consistently; (R04.7) recursion covers objects, arrays, maps and unions; (R04.8) the loops that merge required lists visit every element; keyword blocks are independent (not else-chained); (R04.9) the must-validate decisions of the HTTP data builder consult each collection they built and accumulate (never 'last element wins'); (R04.10) runtime validators (shared with C17); (R04.11) References are inherited and Bases merged by every implementation; (R04.12) alias flattening keeps and merges validations into the attribute; (R04.13) generated decoders never plainly assign the error accumulator after a merge; (R04.14) the required flag is propagated for every element of a Finalize loop; shared rules R17.1 (format vocabulary) and R18.1 (merged validation errors keep their class). shared R13.6 (ValidationExpr.Dup carries each keyword to the like-named field). (R04.15) required flags are looked up under the key they were stored with (shared with C07/R07.8). NOT decided: that the emitted Validate functions accept exactly the valid values for every attribute shape (needs execution of generated code)."
+const explanationC04 = "Decides structural necessary conditions of C04: (R04.1) in every expanded variant of the generated handler the endpoint call is reached only through decodeRequest followed by `if err != nil { encodeError…; return }`, and the runtime gRPC handlers have the same gate (shared with C10/R10.3); (R04.2) the generated request decoder returns the accumulated validation error before building the payload; (R04.3) keyword semantics — each of the six numeric/length keyword templates, expanded under the flags its execute site fixes, emits the comparison, bound and lower/upper flag that the keyword names (inclusive `<`/`>`, exclusive `<=`/`>=`, rune count for strings, len otherwise); (R04.4) at every template execute site of validationCode the flags the template branches on have one definite value on all paths (reaching-constants over the data map), and every key printed by the selected branches is definitely present; (R04.5) every ValidationExpr field is consumed by the validation generator, Dup, Merge and HasRequiredOnly; (R04.6) Merge treats lower-bound-like and upper-bound-like keywords consistently; (R04.7) recursion covers objects, arrays, maps and unions; (R04.8) the loops that merge required lists visit every element; keyword blocks are independent (not else-chained); (R04.9) the must-validate decisions of the HTTP data builder consult each collection they built and accumulate (never 'last element wins'); (R04.10) runtime validators (shared with C17); (R04.11) References are inherited and Bases merged by every implementation; (R04.12) alias flattening keeps and merges validations into the attribute; (R04.13) generated decoders never plainly assign the error accumulator after a merge; (R04.14) the required flag is propagated for every element of a Finalize loop; shared rules R17.1 (format vocabulary) and R18.1 (merged validation errors keep their class). shared R13.6 (ValidationExpr.Dup carries each keyword to the like-named field). (R04.15) required flags are looked up under the key they were stored with (shared with C07/R07.8). shared R14.8 (codegen.Walk visits every child of arrays and maps). NOT decided: that the emitted Validate functions accept exactly the valid values for every attribute shape (needs execution of generated code)."
 
 func runC04(c *an.Ctx) string {
 	r04ValidationTemplates(c)
@@ -37,6 +37,7 @@ func runC04(c *an.Ctx) string {
 	errAccumulatorRule(c, "R04.13", "http/codegen/templates/partial/request_elements.go.tpl", "http/codegen/templates/request_decoder.go.tpl", "http/codegen/templates/response_decoder.go.tpl", "http/codegen/templates/partial/single_response.go.tpl")
 	r028RefsAndBases(c, "R04.11") // shared with C02/R02.8: a Reference must not drag the referenced type's validations in
 	r181MergeErrors(c)            // shared with C18 (rule id R18.1): merged validation errors stay 400-class (Fault only if both are)
+	r148WalkChildren(c, "R14.8")  // shared with C14: the traversal that decides whether a type has validations visits array elements and map keys and elements on every path
 	r136Exhaustive(c)             // shared with C13 (rule id R13.6): the copy of a validation that the HTTP types are built from carries every keyword to the field of the same name
 	return explanationC04
 }
